@@ -465,6 +465,14 @@ else:
 """
 
 
+SCALAR_REPRO = PRELUDE + """
+e = E(@sym@)()
+fq = @f@
+ref = complex(e.get_impedances(np.array([float(fq[0] if isinstance(fq, list) else fq)]))[0])
+got = complex(np.asarray(e.get_impedances(fq)).ravel()[0])
+assert abs(got - ref) <= 1e-12 * max(1.0, abs(ref)), (got, ref)
+"""
+
 MIXED_REPRO = PRELUDE + """
 e = E(@sym@)()
 f = np.array(@f@)
@@ -484,12 +492,28 @@ def run_mixed(args):
     cls = get_elements(private=True)[sym]
     e = cls()
     cases, fails = [], []
+    # a single frequency given as a plain number / a list is the one-element array of that frequency
+    for fq in (10.0, 3, [250.0]):
+        key = ("scalar-frequency", sym, repr(fq))
+        cases.append((key, True))
+        src = fill(SCALAR_REPRO, sym=sym, f=repr(fq))
+        try:
+            ref = complex(e.get_impedances(np.array([float(fq[0] if isinstance(fq, list) else fq)]))[0])
+        except Exception:  # noqa  - the array form itself does not evaluate: nothing to compare
+            continue
+        try:
+            got = complex(np.asarray(e.get_impedances(fq)).ravel()[0])
+        except Exception as ex:  # noqa
+            fails.append((f"{sym}:scalar-frequency:raises {type(ex).__name__}", "Element.get_impedances", f"{sym}().get_impedances({fq!r}) raises {type(ex).__name__}: {str(ex)[:80]} although the one-element array evaluates", src))
+            continue
+        if not abs(got - ref) <= 1e-12 * max(1.0, abs(ref)):
+            fails.append((f"{sym}:scalar-frequency:differs-from-array", "Element.get_impedances", f"{sym}().get_impedances({fq!r}) = {got}, with the one-element array: {ref}", src))
     try:
         for x in (0.0, INF):
             if not finite(complex(e.get_impedances(np.array([x]))[0])):
                 raise ValueError
     except Exception:  # noqa  - a limit is not reported for this class: nothing to mix
-        return "mixed", "a limit is not reported", [(("mixed", sym), False)], [], [], 0.0, {}
+        return "mixed", "a limit is not reported", cases + [(("mixed", sym), False)], fails, [], 0.0, {}
     for f in ([0.0, 1.0, 10.0, INF], [0.0, INF, 1.0, 10.0], [10.0, INF, 1.0, 0.0], [INF, 1.0, 0.0], [0.0, 0.0, INF, 2.0, INF]):
         key = ("mixed", sym, tuple(f))
         src = fill(MIXED_REPRO, sym=sym, f=repr(f).replace("inf", "float('inf')"))
